@@ -902,21 +902,25 @@ func ruleF5(c *Ctx) {
 		c.anchorMissing("F5", "pass2.(*Pass2).Eval")
 	} else {
 		okParse, okExec := false, false
-		callsIn(f, func(ci ssa.CallInstruction) {
-			switch calleeName(ci.Common()) {
-			case "(*text/template.Template).Parse":
-				// argument is the operand element itself
-				a := ci.Common().Args[1]
-				if len(keyTransforms(a)) == 0 {
-					okParse = true
+		// Eval together with the helpers of its package it calls (an extracted method is the same code)
+		for _, g := range unitOf(f, 3) {
+			callsIn(g, func(ci ssa.CallInstruction) {
+				switch calleeName(ci.Common()) {
+				case "(*text/template.Template).Parse":
+					// argument is the operand element itself (or the helper's parameter, which the
+					// caller binds to the operand element unmodified)
+					a := ci.Common().Args[1]
+					if len(keyTransforms(a)) == 0 && paramBoundUnmodified(f, g, a) {
+						okParse = true
+					}
+				case "(*text/template.Template).Execute":
+					a := ci.Common().Args[2]
+					if mi, ok := a.(*ssa.MakeInterface); ok && isFieldLoad(mi.X, "SymTable") {
+						okExec = true
+					}
 				}
-			case "(*text/template.Template).Execute":
-				a := ci.Common().Args[2]
-				if mi, ok := a.(*ssa.MakeInterface); ok && isFieldLoad(mi.X, "SymTable") {
-					okExec = true
-				}
-			}
-		})
+			})
+		}
 		c.check(okParse, "F5", "Pass2.Eval|template text", c.L.Pos(f.Pos()), "the placeholder text must be the operand unmodified")
 		c.check(okExec, "F5", "Pass2.Eval|template data", c.L.Pos(f.Pos()), "placeholders must be resolved against the symbol table itself (exact-key lookup)")
 	}
@@ -984,4 +988,59 @@ func keyTransforms(v ssa.Value) []string {
 	}
 	walk(v)
 	return bad
+}
+
+
+// unitOf: f and the functions of its own package it calls statically, to the given depth
+// (extracting a helper must not change a verdict).
+func unitOf(f *ssa.Function, depth int) []*ssa.Function {
+	seen := map[*ssa.Function]bool{}
+	var out []*ssa.Function
+	var walk func(g *ssa.Function, d int)
+	walk = func(g *ssa.Function, d int) {
+		if g == nil || seen[g] || d < 0 || len(g.Blocks) == 0 {
+			return
+		}
+		seen[g] = true
+		out = append(out, g)
+		for _, an := range g.AnonFuncs {
+			walk(an, d)
+		}
+		callsIn(g, func(ci ssa.CallInstruction) {
+			if callee := ci.Common().StaticCallee(); callee != nil && callee.Pkg != nil && f.Pkg != nil && callee.Pkg == f.Pkg {
+				walk(callee, d-1)
+			}
+		})
+	}
+	walk(f, depth)
+	return out
+}
+
+// paramBoundUnmodified: a is not a parameter of a helper g ≠ f, or every call of g from the
+// unit of f passes, for that parameter, a value that is itself untransformed.
+func paramBoundUnmodified(f, g *ssa.Function, a ssa.Value) bool {
+	prm, ok := a.(*ssa.Parameter)
+	if !ok || g == f {
+		return true
+	}
+	idx := -1
+	for i, pp := range g.Params {
+		if pp == prm {
+			idx = i
+		}
+	}
+	if idx < 0 {
+		return true
+	}
+	okAll := true
+	for _, h := range unitOf(f, 3) {
+		callsIn(h, func(ci ssa.CallInstruction) {
+			if ci.Common().StaticCallee() == g && idx < len(ci.Common().Args) {
+				if len(keyTransforms(ci.Common().Args[idx])) != 0 {
+					okAll = false
+				}
+			}
+		})
+	}
+	return okAll
 }
